@@ -303,6 +303,8 @@ class Walker:
         self.refs = []          # (var decl id, classification tuple) resolved at the end (forward refs)
         self.dtors = {}         # loc key -> record
         self.noexcept_fns = {}  # qualified name -> record (same shape as dtors)
+        self.fbody = {}         # function decl id -> callee set of its body (functions defined in library files)
+        self.ctor_index = {}    # (class simple name, constructor type string) -> ids of constructors with a body
         self.mutable_records = set()   # qualified record names that have a mutable field
         self.tls = []
         self.ucalls = set()
@@ -381,6 +383,14 @@ class Walker:
             self.qual[n["id"]] = q
             self.ftype[n["id"]] = (n.get("type") or {}).get("qualType")
             self.fvirtual[n["id"]] = bool(n.get("virtual"))
+            parts = [c for c in n.get("inner", []) if isinstance(c, dict) and c.get("kind") in ("CompoundStmt", "CXXTryStmt", "CXXCtorInitializer")]
+            if any(c.get("kind") in ("CompoundStmt", "CXXTryStmt") for c in parts) and not n.get("isImplicit"):
+                cs = set()
+                for c in parts:
+                    self.collect_callees(c, cs, False)
+                self.fbody[n["id"]] = cs
+                if kind == "CXXConstructorDecl":
+                    self.ctor_index.setdefault((q.split("::")[-1], self.ftype[n["id"]]), set()).add(n["id"])
             if kind == "CXXDestructorDecl":
                 self.on_dtor(n, q, here)
             elif is_noexcept_type(self.ftype[n["id"]]):
@@ -755,7 +765,7 @@ class Walker:
                 if not is_noexcept_type(ct) and not n.get("elidable"):
                     tn = (n.get("type") or {}).get("qualType", "?")
                     if not self.trivial_ctor(n):
-                        out.add(("constructor of " + tn, False))
+                        out.add((("ctor", tn, ct), False))
             elif k == "CXXNewExpr":
                 out.add(("operator new", False))
         for c in n.get("inner", []) or []:
@@ -837,6 +847,15 @@ mark_instantiations(Walker)
 # ------------------------------------------------------------------------------------------------ one TU
 
 def analyse_tu(args):
+    """one translation unit; a compiler crash (signal) is retried once — the sources may have been mid-update"""
+    r = analyse_tu_once(args)
+    if "error" in r and "clang failed (rc=1)" not in r["error"]:
+        time.sleep(1.0)
+        r = analyse_tu_once(args)
+    return r
+
+
+def analyse_tu_once(args):
     label, source_path, source_text = args
     sys.setrecursionlimit(20000)
     t0 = time.time()
@@ -885,6 +904,41 @@ def analyse_tu(args):
         r["writes"] = sorted(r["writes"])
         r["types"] = sorted(r.get("types", []))
         statics.append(r)
+    # ---- which library functions cannot throw although they are not declared noexcept: no throw expression, no new,
+    # no dynamic_cast / typeid, and every callee is noexcept or (recursively) such a function.  Greatest fixpoint.
+    def ctor_id(c):
+        _, tn, ct = c
+        simple = re.sub(r"<.*$", "", tn.replace("const ", "").strip()).split("::")[-1].strip()
+        ids = w.ctor_index.get((simple, ct), set())
+        return next(iter(ids)) if len(ids) == 1 else None
+
+    def callee_id(c):
+        if isinstance(c, tuple) and c[0] == "id":
+            return c[1]
+        if isinstance(c, tuple) and c[0] == "ctor":
+            return ctor_id(c)
+        return None
+
+    nothrow = set(w.fbody)
+    changed = True
+    while changed:
+        changed = False
+        for fid in list(nothrow):
+            ok = True
+            for c, _ in w.fbody[fid]:
+                cid = callee_id(c)
+                if cid is None:
+                    ok = False
+                elif is_noexcept_type(w.ftype.get(cid)):
+                    continue
+                elif w.fvirtual.get(cid) or cid not in nothrow:
+                    ok = False
+                if not ok:
+                    break
+            if not ok:
+                nothrow.discard(fid)
+                changed = True
+
     def resolve(table):
         out = []
         for key, r in table.items():
@@ -892,13 +946,19 @@ def analyse_tu(args):
             names = set()
             for c, _ in use:
                 if isinstance(c, tuple):
-                    _, cid, nm = c
+                    cid = callee_id(c)
+                    if c[0] == "ctor" and cid is None:
+                        names.add("constructor of " + c[1])
+                        continue
+                    nm = c[2] if c[0] == "id" else c[1]
                     q = w.qual.get(cid)
                     ft = w.ftype.get(cid)
                     if q is None:
                         names.add("(external)::" + str(nm))
                     elif is_noexcept_type(ft):
                         continue
+                    elif cid in nothrow and not w.fvirtual.get(cid):
+                        continue        # defined in a library file and cannot throw by its body
                     else:
                         names.add(q + (" [virtual]" if w.fvirtual.get(cid) else ""))
                 else:
@@ -1124,10 +1184,11 @@ def regenerate(force=False, quiet=False):
             else:
                 inv = build_inventory()
                 inv["wall"] = round(time.time() - t0, 1)
-                tmp = cache + ".tmp%d" % os.getpid()
-                with open(tmp, "w") as fh:
-                    json.dump(inv, fh, indent=1, sort_keys=True)
-                os.rename(tmp, cache)
+                if not inv["errors"] and inv["repo_hash"] == h:      # never cache a failed or mid-update inventory
+                    tmp = cache + ".tmp%d" % os.getpid()
+                    with open(tmp, "w") as fh:
+                        json.dump(inv, fh, indent=1, sort_keys=True)
+                    os.rename(tmp, cache)
                 # drop stale caches
                 for e in os.listdir(CACHE_DIR):
                     p = os.path.join(CACHE_DIR, e)
